@@ -215,7 +215,7 @@ pub fn run(seed: u64, n: usize, out: &Path, _thorough: bool) -> anyhow::Result<(
             }
         }
         let coq = format!(
-            "(mkCase {} {} {} {} [{}])",
+            "(Hist (mkCase {} {} {} {} [{}]))",
             n256(w.ns_id().as_bytes()), clist(&ops, |o| ccop(&w, o)), clist(&boundaries, |b| clist(b, centry)), clist(&listed, |b| cbool(*b).to_string()), probes.join("; ")
         );
         let json = format!("{{\"ops\":[{}],\"boundary_sizes\":[{}],\"first_probes\":[{}],\"n_probes\":{}}}",
@@ -225,8 +225,76 @@ pub fn run(seed: u64, n: usize, out: &Path, _thorough: bool) -> anyhow::Result<(
         if distinct.insert(coq.clone()) { stats.inc("distinct_nontrivial"); }
         cw.push(coq, json)?;
     }
+    // through the store handle: writes by every path (local insert, prefix deletion, single remote entry,
+    // reconciliation message), an acknowledged flush_store, the file copied at once, the copy reopened
+    let n_actor = (n / 10).max(12);
+    let art = tokio::runtime::Builder::new_multi_thread().worker_threads(2).enable_all().build()?;
+    for i in 0..n_actor {
+        use crate::actorops::{AOp, Client};
+        use crate::storeops::Universe;
+        use crate::wire::{WMessage, WPart};
+        let uni = Universe::new(seed.wrapping_add(1000 + i as u64), 1, 2);
+        let (ns, secret) = uni.docs[0];
+        let w = World { ns: iroh_docs::NamespaceSecret::from_bytes(&secret), authors: uni.authors.clone() };
+        let dir = tempfile::tempdir()?;
+        let path = dir.path().join("docs.redb");
+        let store = Store::persistent(&path)?;
+        let terms: Vec<(String, String)> = art.block_on(async {
+            let handle = iroh_docs::actor::SyncHandle::spawn(store, None, "verif-c06".into());
+            let mut author_ids = Vec::new();
+            for a in &uni.authors { author_ids.push(handle.import_author(a.clone()).await?); }
+            let mut client = Client { handle, txs: Vec::new(), rxs: Vec::new(), author_ids };
+            let unknown = iroh_docs::AuthorId::from(&[0x55u8; 32]);
+            client.apply(&AOp::Import { ns, secret: Some(secret) }, unknown).await?;
+            client.apply(&AOp::Open { ns, sync: true, sub: None }, unknown).await?;
+            client.handle.flush_store().await?;
+            let mut out = Vec::new();
+            let mut ts = T0;
+            for _ in 0..2 + rng.below(4) {
+                // one to three writes, all by the same path or mixed
+                let same_path = if rng.chance(1, 2) { Some(rng.below(4)) } else { None };
+                for _ in 0..1 + rng.below(3) {
+                    ts += 1;
+                    let au = rng.below(2) as usize;
+                    let key = rng.pick(&[&b"a"[..], b"ab", b"b", b"a\xff", b""]).to_vec();
+                    let hash = if rng.chance(1, 2) { HASH_A } else { HASH_B };
+                    let len = if hash == HASH_A { 1 } else { 2 };
+                    let op = match same_path.unwrap_or_else(|| rng.below(4)) {
+                        0 => { stats.inc("actor_insert_local"); AOp::InsertLocal { ns, au, known: true, key, hash, len, now: ts } }
+                        1 => { stats.inc("actor_delete_prefix"); AOp::DeletePrefix { ns, au, known: true, key, now: ts } }
+                        2 => { stats.inc("actor_insert_remote"); AOp::InsertRemote { ns, w: crate::c03::sign(&w.ns, &w.authors[au], &key, hash, len, ts), st: 2, now: T0 + 100 } }
+                        _ => {
+                            stats.inc("actor_sync_message");
+                            let x = iroh_docs::sync::RecordIdentifier::new(iroh_docs::NamespaceId::from(&ns), uni.authors[au].id(), b"");
+                            let values = vec![(crate::c03::sign(&w.ns, &w.authors[au], &key, hash, len, ts), 2u8)];
+                            AOp::SyncProcess { ns, m: WMessage { parts: vec![WPart::Item { x: x.as_ref().to_vec(), y: x.as_ref().to_vec(), values, have_local: true }] }, now: T0 + 100 }
+                        }
+                    };
+                    let _ = client.apply(&op, unknown).await?;
+                }
+                // the acknowledged flush, then the "kill": the file as it is now
+                client.handle.flush_store().await?;
+                let img = dir.path().join("crash.redb");
+                std::fs::copy(&path, &img)?;
+                let expected = client.get_all(&ns).await?.unwrap_or_default();
+                let (opened, recovered) = match std::panic::catch_unwind(std::panic::AssertUnwindSafe(|| Store::persistent(&img))) {
+                    Ok(Ok(mut s)) => match all_entries(&mut s, iroh_docs::NamespaceId::from(&ns)) { Ok(l) => (true, l), Err(_) => (false, vec![]) },
+                    _ => (false, vec![]),
+                };
+                let _ = std::fs::remove_file(&img);
+                stats.inc("actor_flush_images");
+                out.push((
+                    format!("(ActorFlush {} {} {})", cbool(opened), clist(&expected, centry), clist(&recovered, centry)),
+                    format!("{{\"through_store_handle\":true,\"held_at_flush\":{},\"in_the_file_after_kill\":{},\"opened\":{}}}", expected.len(), recovered.len(), opened),
+                ));
+            }
+            let _ = client.handle.shutdown().await;
+            anyhow::Ok(out)
+        })?;
+        for (coq, json) in terms { cw.push(coq, json)?; }
+    }
     cw.flush()?;
-    stats.add("evaluations", *stats.0.get("crash_images").unwrap_or(&0));
+    stats.add("evaluations", *stats.0.get("crash_images").unwrap_or(&0) + *stats.0.get("actor_flush_images").unwrap_or(&0));
     stats.add("histories", cw.total as u64);
     stats.write(out, "C06")?;
     Ok(())
